@@ -57,6 +57,28 @@ def caller_mutation(ctx):
                                                               "max_reward": m, "force_down": fd}, {"again": repr(b.get("board"))[:200]})
 
 
+def documented_defaults(ctx):
+    """gen_rnd_board(seed, length, width, prob_loose_tile) without the two optional parameters: the documented
+    defaults are a maximum reward of 6 and no forced down-only tiles"""
+    import random as real_random
+    rg = repo("roberta_generator")
+    for (seed, L, W, pl) in ((3, 3, 3, 0.3), (8, 2, 5, 0.5), (21, 6, 2, 0.1)):
+        try:
+            with quiet():
+                short = rg.gen_rnd_board(seed, L, W, pl)
+                full = rg.gen_rnd_board(seed, L, W, pl, 6, False)
+                kw = rg.gen_rnd_board(seed=seed, length=L, width=W, prob_loose_tile=pl, max_reward=6, force_down=False)
+        except Exception as e:  # noqa
+            ctx.violation("honours-parameters", {"seed": seed, "length": L, "width": W, "prob_loose": pl, "defaults": True},
+                          {"error": type(e).__name__, "msg": str(e)[:200]})
+            return
+        ctx.case({"defaults": [seed, L, W, pl]}, True)
+        if repr(short) != repr(full) or repr(kw) != repr(full):
+            ctx.violation("honours-parameters", {"seed": seed, "length": L, "width": W, "prob_loose": pl, "defaults": True},
+                          {"with_defaults": repr(short)[:200], "max_reward=6, force_down=False": repr(full)[:200]})
+            return
+
+
 def judge_board(ctx, params, r):
     seed, L, W, pl, m, fd = params
     inp = {"seed": seed, "length": L, "width": W, "prob_loose": pl, "max_reward": m, "force_down": fd}
@@ -237,6 +259,7 @@ def run(ctx, model=None):
     seeds = [0, 1, 47, 999132423, 2 ** 32, 2 ** 32 + 47, 2 ** 64 + 5, 10 ** 30] + \
         [rng.randrange(10 ** 6) for _ in range(10 if ctx.quick() else 20000)]
     caller_mutation(ctx)
+    documented_defaults(ctx)
     shapes = [(1, 1), (1, 2), (2, 1), (3, 3), (5, 5), (2, 7)] if ctx.quick() else \
         [(1, 1), (1, 2), (2, 1), (3, 3), (5, 5), (2, 7), (10, 20), (40, 10), (1, 50), (50, 1)]
     for seed in seeds:
